@@ -39,6 +39,11 @@ ValueBad(o, r) == IF r = Inf THEN o # Inf
                   ELSE IF XKnown(r) THEN o # r
                   ELSE FALSE
 
+Narrow(v) == \A i \in 1..Len(v) : Abs(v[i][1]) * v[i][2] <= 160
+\* every scalar parameter of the program is moderate (scalings multiply denominators inside InSubdiff)
+RECURSIVE ScalarsNarrow(_)
+ScalarsNarrow(f) == /\ (f.s[2] = 0 \/ Abs(f.s[1]) * f.s[2] <= 10)
+                    /\ \A k \in 1..Len(f.args) : ScalarsNarrow(f.args[k])
 ProxClauses(e) ==
   LET ent == Entry(e.sp, e.f, 0)
       q   == ProxQueryable(ent)
@@ -47,7 +52,10 @@ ProxClauses(e) ==
       (IF e.finite = 1 /\ \E j \in 1..Len(e.probes) : e.probes[j].fin = 1 /\ e.probes[j].Fq < e.Fpq - e.slackq
          THEN {"probe-has-smaller-objective"} ELSE {}) \cup
       \* sub-gradient inclusion at the snapped p
-      (IF q /\ IsOn(e.p) /\ ~Cert(e.sp, e.f, e.sig, e.x, e.p) THEN {"not-the-minimiser(subgradient)"} ELSE {}) \cup
+      \* (only on data narrow enough for 32-bit rationals; elsewhere the literal clause above stands alone)
+      (IF q /\ IsOn(e.p) /\ Narrow(e.p) /\ Narrow(e.sig) /\ ScalarsNarrow(e.f) /\
+          Narrow([i \in 1..Len(e.x) |-> QDiv(QSub(e.x[i], e.p[i]), e.sig[i])]) /\
+          ~Cert(e.sp, e.f, e.sig, e.x, e.p) THEN {"not-the-minimiser(subgradient)"} ELSE {}) \cup
       \* the implementation's f takes the documented values on the probes
       \* (programs holding a conjugate are valued by the dedicated fy / value events: each value is a lattice scan)
       (IF ~HasConj(e.f) /\ \E j \in 1..Len(e.probes) : IsOn(e.probes[j].z) /\ e.probes[j].fz # NaN /\
